@@ -59,6 +59,26 @@ CHECKS['C16'] = ('complete enumeration of SMIv1 base-module symbols against an i
                  'SMIv1 scalars of every type x ACCESS word, tables, traps and sequences of them are rendered as SMIv1 and as '
                  'SMIv2 text and must yield the same symbols, OIDs, classes, node types, access, lists and pysnmp classes.',
                  '5.C16')
+_H = ('stateless exploration of the real MibCompiler.compile() over scripted environments (every assignment of answers to '
+      'source / parser / symbol-table / code-generator / searcher / borrower / writer calls within a deviation bound), '
+      'judged by a reference model of compile() and call-log invariants')
+CHECKS['C07'] = (_H, 'All import graphs x requests x 64 option vectors in the default environment, and every single (quick) / pair '
+                 '(thorough) of deviations: no exception escapes, every closure module has one of six statuses, <=1 putData per '
+                 'module, compiled/borrowed iff written, payload = generator/borrower output, failed entries carry the causing '
+                 'error, agreement with the reference model.', '5.C07')
+CHECKS['C08'] = (_H, 'All 512 digraphs on 3 modules, all holdings of modules over 3 sources with distinct texts, multi-module and '
+                 'misnamed files: result keys = import closure, each (source, module) asked once in list order up to the first '
+                 'holder, parsed text and payload are the first holder\'s, every call returns within time and call budgets.', '5.C08')
+CHECKS['C09'] = (_H, 'Every placement of one or two failures of 8 kinds in every graph x request x ignoreErrors x borrower settings: '
+                 'nothing written and built modules unprocessed unless errors are ignored; with ignoreErrors everything built is '
+                 'written once.', '5.C09')
+CHECKS['C10'] = (_H + '; complete product of directory states x mtime differences for the real file searchers',
+                 'Searcher lists (<=2) x 4 answers per module x stub-likeness x rebuild x noDeps on compile(); real AnyFile/PyFile/'
+                 'PyPackage searchers over every combination of directory entries x mtime difference -2..2 s x rebuild.', '5.C10')
+CHECKS['C19'] = (_H + '; real borrowers over a real directory with every extension variant',
+                 'All borrower lists <=2 (flavour x per-module answers) x failure placements x noDeps x genTexts x ignoreErrors x '
+                 'requests: borrowing only for unbuilt modules, list order, flavour filter, verbatim payload, requested modules '
+                 'eligible under noDeps; PyFileBorrower/AnyFileBorrower serve only their own extensions.', '5.C19')
 NOT_YET = {}
 
 ALL = ['C%02d' % i for i in range(1, 21)]
